@@ -19,28 +19,113 @@ import (
 type srcLeaf struct {
 	V  ssa.Value
 	Fn *ssa.Function
+	// a result of calling a function-typed parameter, seen from one call site of the function holding the call:
+	// the function handed in there, the arguments it is called with (the holder's parameters replaced by that
+	// site's arguments) and the site
+	Callee *ssa.Function
+	Args   []ssa.Value
+	Site   ssa.CallInstruction
+}
+
+type seenKey struct {
+	v    ssa.Value
+	site ssa.CallInstruction
 }
 
 type srcWalker struct {
 	c    *core.Ctx
-	seen map[ssa.Value]bool
+	seen map[seenKey]bool
 	out  []srcLeaf
 	n    int
+	// one level of calling context: while the results of a helper are followed from one of its call sites, the
+	// helper's parameters stand for that site's arguments only
+	ctx map[*ssa.Function]ssa.CallInstruction
+}
+
+// into follows the results of g as called at site.
+func (w *srcWalker) into(g *ssa.Function, site ssa.CallInstruction, f func()) {
+	old, had := w.ctx[g]
+	w.ctx[g] = site
+	f()
+	if had {
+		w.ctx[g] = old
+	} else {
+		delete(w.ctx, g)
+	}
+}
+
+// sitesOf: the call sites a parameter of holder stands for (the one being followed, or all).
+func (w *srcWalker) sitesOf(holder *ssa.Function) []ssa.CallInstruction {
+	if s, ok := w.ctx[holder]; ok {
+		return []ssa.CallInstruction{s}
+	}
+	return an.CallSitesOf(w.c, holder)
 }
 
 func sourcesOf(c *core.Ctx, v ssa.Value, fn *ssa.Function) []srcLeaf {
-	w := &srcWalker{c: c, seen: map[ssa.Value]bool{}}
+	w := &srcWalker{c: c, seen: map[seenKey]bool{}, ctx: map[*ssa.Function]ssa.CallInstruction{}}
 	w.value(v, fn, 0)
 	return w.out
 }
 
 func fieldSourcesOf(c *core.Ctx, structVal ssa.Value, field string, fn *ssa.Function) []srcLeaf {
-	w := &srcWalker{c: c, seen: map[ssa.Value]bool{}}
+	w := &srcWalker{c: c, seen: map[seenKey]bool{}, ctx: map[*ssa.Function]ssa.CallInstruction{}}
 	w.field(structVal, field, fn, 0)
 	return w.out
 }
 
-func (w *srcWalker) leaf(v ssa.Value, fn *ssa.Function) { w.out = append(w.out, srcLeaf{v, fn}) }
+func (w *srcWalker) leaf(v ssa.Value, fn *ssa.Function) {
+	// the result of calling a function handed in as a parameter (`flagValue(flags.GetInt, name)`)
+	var call *ssa.Call
+	switch x := v.(type) {
+	case *ssa.Extract:
+		call, _ = x.Tuple.(*ssa.Call)
+	case *ssa.Call:
+		call = x
+	}
+	if call != nil && an.Callee(call) == nil && !call.Call.IsInvoke() {
+		if p, isParam := an.Strip(call.Call.Value).(*ssa.Parameter); isParam && p.Parent().Parent() == nil {
+			holder := p.Parent()
+			idx := an.ParamIndex(p)
+			resolved := 0
+			sites := w.sitesOf(holder)
+			var leaves []srcLeaf
+			for _, s := range sites {
+				if idx < 0 || idx >= len(s.Common().Args) {
+					continue
+				}
+				var target *ssa.Function
+				switch f := an.Strip(s.Common().Args[idx]).(type) {
+				case *ssa.Function:
+					target = an.Unwrap(f)
+				case *ssa.MakeClosure:
+					if ff, ok := f.Fn.(*ssa.Function); ok {
+						target = an.Unwrap(ff)
+					}
+				}
+				if target == nil {
+					continue
+				}
+				resolved++
+				var args []ssa.Value
+				for _, a := range call.Call.Args {
+					if ap, ok := an.Strip(a).(*ssa.Parameter); ok && ap.Parent() == holder {
+						if j := an.ParamIndex(ap); j >= 0 && j < len(s.Common().Args) {
+							a = s.Common().Args[j]
+						}
+					}
+					args = append(args, a)
+				}
+				leaves = append(leaves, srcLeaf{V: v, Fn: fn, Callee: target, Args: args, Site: s})
+			}
+			if resolved == len(sites) && resolved > 0 {
+				w.out = append(w.out, leaves...)
+				return
+			}
+		}
+	}
+	w.out = append(w.out, srcLeaf{V: v, Fn: fn})
+}
 
 func moduleBody(t *ssa.Function) bool { return t != nil && core.InModule(t) && t.Blocks != nil }
 
@@ -50,17 +135,23 @@ func (w *srcWalker) value(v ssa.Value, fn *ssa.Function, depth int) {
 		return
 	}
 	v = an.Strip(v)
-	if w.seen[v] {
+	key := seenKey{v, nil}
+	if in, ok := v.(ssa.Instruction); ok && in.Parent() != nil {
+		key.site = w.ctx[in.Parent()]
+	} else if p, ok := v.(*ssa.Parameter); ok {
+		key.site = w.ctx[p.Parent()]
+	}
+	if w.seen[key] {
 		return
 	}
-	w.seen[v] = true
+	w.seen[key] = true
 	switch x := v.(type) {
 	case *ssa.Phi:
 		for _, e := range x.Edges {
 			w.value(e, fn, depth+1)
 		}
 	case *ssa.Parameter:
-		sites := an.CallSitesOf(w.c, x.Parent())
+		sites := w.sitesOf(x.Parent())
 		if len(sites) == 0 || x.Parent().Parent() != nil {
 			w.leaf(v, fn)
 			return
@@ -74,19 +165,23 @@ func (w *srcWalker) value(v ssa.Value, fn *ssa.Function, depth int) {
 	case *ssa.Extract:
 		if call, ok := x.Tuple.(*ssa.Call); ok && moduleBody(an.Callee(call)) {
 			g := an.Callee(call)
-			for _, r := range an.Returns(g) {
-				if x.Index < len(r.Results) {
-					w.value(r.Results[x.Index], g, depth+1)
+			w.into(g, call, func() {
+				for _, r := range an.Returns(g) {
+					if x.Index < len(r.Results) {
+						w.value(r.Results[x.Index], g, depth+1)
+					}
 				}
-			}
+			})
 			return
 		}
 		w.leaf(v, fn)
 	case *ssa.Call:
 		if g := an.Callee(x); moduleBody(g) && g.Signature.Results().Len() == 1 {
-			for _, r := range an.Returns(g) {
-				w.value(r.Results[0], g, depth+1)
-			}
+			w.into(g, x, func() {
+				for _, r := range an.Returns(g) {
+					w.value(r.Results[0], g, depth+1)
+				}
+			})
 			return
 		}
 		w.leaf(v, fn)
@@ -175,24 +270,28 @@ func (w *srcWalker) field(sv ssa.Value, name string, fn *ssa.Function, depth int
 	case *ssa.Extract:
 		if call, ok := x.Tuple.(*ssa.Call); ok && moduleBody(an.Callee(call)) {
 			g := an.Callee(call)
-			for _, r := range an.Returns(g) {
-				if x.Index < len(r.Results) {
-					w.field(r.Results[x.Index], name, g, depth+1)
+			w.into(g, call, func() {
+				for _, r := range an.Returns(g) {
+					if x.Index < len(r.Results) {
+						w.field(r.Results[x.Index], name, g, depth+1)
+					}
 				}
-			}
+			})
 			return
 		}
 		w.leaf(x, fn)
 	case *ssa.Call:
 		if g := an.Callee(x); moduleBody(g) && g.Signature.Results().Len() == 1 {
-			for _, r := range an.Returns(g) {
-				w.field(r.Results[0], name, g, depth+1)
-			}
+			w.into(g, x, func() {
+				for _, r := range an.Returns(g) {
+					w.field(r.Results[0], name, g, depth+1)
+				}
+			})
 			return
 		}
 		w.leaf(x, fn)
 	case *ssa.Parameter:
-		sites := an.CallSitesOf(w.c, x.Parent())
+		sites := w.sitesOf(x.Parent())
 		if len(sites) == 0 || x.Parent().Parent() != nil {
 			w.leaf(x, fn)
 			return
